@@ -5,6 +5,7 @@ package main
 import (
 	"fmt"
 	"go/types"
+	"strings"
 
 	"golang.org/x/tools/go/ssa"
 )
@@ -47,8 +48,12 @@ func runC02(c *Ctx) {
 		if ci, ok := in.(ssa.CallInstruction); ok {
 			if cal := ci.Common().StaticCallee(); cal != nil && c.P.IsLibFunc(cal) && !c.P.IsNewHelper(cal) {
 				r := cal.Signature.Results()
-				if r.Len() == 2 && typeStr(r.At(0).Type()) == "[]rules.Rule" {
-					probe = cal
+				// the host-table probe: takes the hostname, returns the matching rules (as []rules.Rule with
+				// a found flag, or as []*rules.HostRule)
+				if (r.Len() == 2 && (typeStr(r.At(0).Type()) == "[]rules.Rule" || typeStr(r.At(0).Type()) == "[]*rules.HostRule") && typeStr(r.At(1).Type()) == "bool") || (r.Len() == 1 && typeStr(r.At(0).Type()) == "[]*rules.HostRule") {
+					if cal.Signature.Params().Len() == 1 && typeStr(cal.Signature.Params().At(0).Type()) == "string" {
+						probe = cal
+					}
 				}
 				if r.Len() == 1 && typeStr(r.At(0).Type()) == "*rules.Request" {
 					poolGet = cal
@@ -60,14 +65,16 @@ func runC02(c *Ctx) {
 		if ci, ok := in.(ssa.CallInstruction); ok {
 			if cal := ci.Common().StaticCallee(); cal != nil && c.P.IsLibFunc(cal) && !c.P.IsNewHelper(cal) && cal.Signature.Recv() != nil {
 				ps := cal.Signature.Params()
-				if ps.Len() == 2 && typeStr(ps.At(0).Type()) == "*rules.HostRule" {
+				// the host-table insert: handed the host rule (or its names) and the storage index
+				if ps.Len() == 2 && (typeStr(ps.At(0).Type()) == "*rules.HostRule" || typeStr(ps.At(0).Type()) == "[]string") {
 					insert = cal
 				}
 			}
 		}
 	})
-	if probe == nil || insert == nil || poolGet == nil {
-		c.Fail("C02.R1", "anchor:host table probe/insert/pool refill", mr.Pos(), fmt.Sprintf("unresolved anchor by role (probe=%v insert=%v pool=%v)", probe != nil, insert != nil, poolGet != nil))
+	// (the pool refill may be a helper returning the request, or Get in place plus a fill function)
+	if probe == nil || insert == nil {
+		c.Fail("C02.R1", "anchor:host table probe/insert", mr.Pos(), fmt.Sprintf("unresolved anchor by role (probe=%v insert=%v)", probe != nil, insert != nil))
 		return
 	}
 
@@ -92,7 +99,7 @@ func runC02(c *Ctx) {
 		bad := ""
 		for _, r := range s.Rets {
 			if len(r.Vals) != 2 {
-				continue
+				continue // no separate flag: the caller tests the length of the result (checked under R4)
 			}
 			want := u.bdd.Not(u.ToBool(u.Eq(u.Len(r.Vals[0]), u.Int(0))))
 			got := u.ToBool(r.Vals[1])
@@ -151,7 +158,7 @@ func runC02(c *Ctx) {
 			ke := s.Env[upd.Key]
 			collE := s.Env[coll]
 			okKey := ok && ke != nil && ke.Op == "call" && ke.Aux == calleeName(fh) && ke.Args[0].Op == "index" && ke.Args[0].Args[0] == collE &&
-				collE.Op == "field" && collE.Aux == "Hostnames" && collE.Args[0] == ps[1]
+				((collE.Op == "field" && collE.Aux == "Hostnames" && collE.Args[0] == ps[1]) || (collE == ps[1] && typeStr(insert.Params[1].Type()) == "[]string"))
 			val := s.Env[upd.Value]
 			okVal := val != nil && val.Op == "append" && val.Aux == "elems" && len(val.Args) == 2 && val.Args[1] == ps[2]
 			c.Check(ok && okKey && okVal, "C02.R2", key, upd.Pos(), "complete unconditional loop over Hostnames; bucket[FastHash(name)] gets the storage index",
@@ -176,6 +183,9 @@ func runC02(c *Ctx) {
 				body := u.bdd.And(s.RC[l.Header], contCond(u, s, l))
 				rc := s.RC[site.Block()]
 				arg := ce.Args[1]
+				if arg.Op == "field" && arg.Aux == "Hostnames" {
+					arg = arg.Args[0] // the names of the rule are handed over
+				}
 				// reached exactly when the scanned rule is a *HostRule
 				ok = arg.Op == "typeassert" || (arg.Op == "extract")
 				var ist Ref = False
@@ -242,11 +252,12 @@ func runC02(c *Ctx) {
 				callGDB = ef
 			case calleeName(probe):
 				callProbe = ef
-			case calleeName(poolGet):
+			}
+			if poolGet != nil && ef.Call.Aux == calleeName(poolGet) {
 				callPool = ef
 			}
 		}
-		if callMA == nil || callGDB == nil || callProbe == nil || callPool == nil {
+		if callMA == nil || callGDB == nil || callProbe == nil {
 			c.Fail("C02.R4", "MatchRequest: wiring", mr.Pos(), "UNDECIDED: expected calls (pool refill, NetworkEngine.MatchAll, GetDNSBasicRule, host-table probe) not all found")
 			return
 		}
@@ -260,7 +271,32 @@ func runC02(c *Ctx) {
 				okNR = true
 			}
 		}
-		okReq := len(callMA.Call.Args) >= 2 && callMA.Call.Args[1] == callPool.Call && len(callPool.Call.Args) >= 2 && callPool.Call.Args[1] == ps[1]
+		okReq := false
+		if len(callMA.Call.Args) >= 2 {
+			req := callMA.Call.Args[1]
+			if callPool != nil {
+				okReq = req == callPool.Call && len(callPool.Call.Args) >= 2 && callPool.Call.Args[1] == ps[1]
+			} else if req.Op == "call" && strings.Contains(req.Aux, "Pool") && strings.HasSuffix(strings.TrimSuffix(req.Aux, ")"), ".Get") {
+				// taken from the pool in place: some call before the query fills it from this DNS request
+				for _, ef := range s.Effects {
+					if ef.Kind != "call" || &ef == nil || ef.Pos == callMA.Pos {
+						continue
+					}
+					hasReq, hasD := false, false
+					for _, a := range ef.Call.Args {
+						if a == req {
+							hasReq = true
+						}
+						if a == ps[1] || (a.Op == "field" && a.Args[0] == ps[1]) {
+							hasD = true // the DNS request, or a field of it (the fill code is expanded)
+						}
+					}
+					if hasReq && hasD {
+						okReq = true
+					}
+				}
+			}
+		}
 		okSel := callGDB.Call.Args[0] == callMA.Call
 		c.Check(okNR && okReq && okSel && callMA.Cond == u.bdd.Not(hostEmpty), "C02.R4", "MatchRequest: NetworkRules is the unfiltered MatchAll result of this request, and the selector sees it", callMA.Pos,
 			"res.NetworkRules := MatchAll(pooledRequest(dReq)); GetDNSBasicRule(res.NetworkRules)",
@@ -279,10 +315,17 @@ func runC02(c *Ctx) {
 		// matched flag
 		M := u.ToBool(g.RetExpr(s, 1))
 		var okFlag Ref = False
-		for _, at := range u.AtomsOf(M) {
-			if at.Op == "extract" && at.Aux == "1" && at.Args[0] == callProbe.Call {
-				okFlag = u.Atom(at)
+		probeRes := callProbe.Call
+		if probe.Signature.Results().Len() == 2 {
+			probeRes = u.mk("extract", "0", nil, callProbe.Call)
+			for _, at := range u.AtomsOf(M) {
+				if at.Op == "extract" && at.Aux == "1" && at.Args[0] == callProbe.Call {
+					okFlag = u.Atom(at)
+				}
 			}
+		} else {
+			// no flag: "something was found" is "the result is not empty"
+			okFlag = u.bdd.Not(u.ToBool(u.Eq(u.Len(probeRes), u.Int(0))))
 		}
 		// rets inside/after the host loop carry loop-control atoms; quantify them away by checking both polarities
 		// a return after a loop carries the loop's exit literal; loops terminate, so quantify the control atoms away
@@ -342,7 +385,6 @@ func runC02(c *Ctx) {
 				// ... and the scanned collection is the lookup result
 				if bad == "" {
 					coll := e4.Act.Env[rangedOver(l).Coll]
-					probeRes := u.mk("extract", "0", nil, callProbe.Call)
 					if coll == nil || coll.key != probeRes.key {
 						bad = "the loop filing host rules does not range over the result of the host-table lookup: " + clip(u.Show(coll), 80)
 					}
